@@ -7,7 +7,7 @@ CONSTANT TraceFile
 Trace == ndJsonDeserialize(TraceFile)
 VARIABLE l
 E == Trace[l]
-ScOf(j) == [opts |-> [i \in 1..Len(j.opts) |-> [kind |-> j.opts[i].kind, lk |-> j.opts[i].lk, keys |-> ToSet(j.opts[i].keys), val |-> j.opts[i].val]]]
+ScOf(j) == [opts |-> [i \in 1..Len(j.opts) |-> [kind |-> j.opts[i].kind, lk |-> j.opts[i].lk, keys |-> ToSet(j.opts[i].keys), val |-> j.opts[i].val, join |-> j.opts[i].join]]]
 TraceScenarios == {ScOf(Trace[1])}
 TraceInit == l = 1 /\ Init
 MStep == /\ l <= Len(Trace) /\ l' = l + 1
